@@ -152,9 +152,15 @@ def gen_grid(rng, kind):
         return grids.AxialGrid, dict(bounds=(None, None, np.array(inc_dyadic(rng, rng.randint(1, 7)))), offset=off)
     if kind == "trz":
         nth = rng.randint(1, 6)
-        th = [0.0] + sorted({common.dyadic(rng, 0.125, 6.25, 3) for _ in range(nth)})
+        r = rng.random()
+        hi = 6.25 if r < 0.7 else 9.0           # some azimuthal meshes run past 2 pi (must be refused there)
+        th = [0.0] + sorted({common.dyadic(rng, 0.125, hi, 3) for _ in range(nth)})
+        off = None
+        if r > 0.85:
+            off = (common.dyadic(rng, -2, 2, 2), common.dyadic(rng, 0, 2, 2), common.dyadic(rng, -2, 2, 2))
         return grids.ThetaRZGrid, dict(bounds=(np.array(th), np.array(inc_dyadic(rng, rng.randint(1, 5))),
-                                               np.array(inc_dyadic(rng, rng.randint(1, 5)))), geomType="thetarz", symmetry="full")
+                                               np.array(inc_dyadic(rng, rng.randint(1, 5)))), geomType="thetarz",
+                                       symmetry="full", offset=off)
     if kind == "mixed":
         # 2-D step matrix restricted to the step dimensions + axial bounds (3-D hex / Cartesian mesh)
         w, h = common.dyadic(rng, 0.5, 4, 3), common.dyadic(rng, 0.5, 4, 3)
@@ -204,13 +210,21 @@ def run_generated(ctx):
         case0 = {"kind": kind, "args": A}
         scale = 1.0
         idxs = probe_indices(rng, g, kw)
+        if kind == "trz":
+            nth = len(kw["bounds"][0]) - 1
+            idxs += [(i, rng.randint(0, len(kw["bounds"][1]) - 2), rng.randint(0, len(kw["bounds"][2]) - 2)) for i in range(nth)]
         for ix in idxs:
-            native = dict(nativeCoords=True) if kind == "trz" else {}
-            c = impl_vec(g.getCoordinates, ix, **native)
+            if kind == "trz":
+                # mesh coordinates (theta, r, z) of the StructuredGrid layer, before ThetaRZGrid's theta check
+                c = impl_vec(grids.StructuredGrid.getCoordinates, g, ix)
+            else:
+                c = impl_vec(g.getCoordinates, ix)
             b = impl_vec(g.getCellBase, ix)
             tp = impl_vec(g.getCellTop, ix)
             for op, v in (("coords", c), ("base", b), ("top", tp)):
                 req.append(f"{op} {A} {ints(ix)}"); impl_vals.append(v); cases.append({**case0, "op": op, "index": list(ix)})
+            if kind == "trz":
+                trz_case(ctx, g, A, case0, ix, req, impl_vals, cases)
             grid_oracle(ctx, g, kind, case0, ix, c, b, tp)
             ctx.case(("grid", kind, t, ix))
         # metadata
@@ -233,6 +247,42 @@ def run_generated(ctx):
     ctx.samples.append({"request": req[0], "model": mv[0], "impl": impl_vals[0]})
     ctx.samples.append({"request": exact_req[2], "model": me[2], "impl": exact_impl[2]})
     ctx.count("generated grids", ngrids)
+
+
+TAU = math.tau
+
+
+def trz_case(ctx, g, A, case0, ix, req, impl_vals, cases):
+    """ThetaRZGrid.getCoordinates in both forms vs Grid.trzGetCoordinates (cos/sin passed as parameters)."""
+    from armi.reactor import grids
+
+    mesh = impl_vec(grids.StructuredGrid.getCoordinates, g, ix)
+    native = impl_vec(g.getCoordinates, ix, nativeCoords=True)
+    xyz = impl_vec(g.getCoordinates, ix)
+    cs, sn = (math.cos(mesh[0]), math.sin(mesh[0])) if mesh is not None else (1.0, 0.0)
+    for flag, v in (("T", native), ("F", xyz)):
+        req.append(f"trz {common.rat(TAU)} {common.rat(cs)} {common.rat(sn)} {flag} {A} {ints(ix)}")
+        impl_vals.append(v); cases.append({**case0, "op": "trz-" + flag, "index": list(ix)})
+    case = {**case0, "index": list(ix)}
+    if mesh is None:
+        if native is not None or xyz is not None:
+            ctx.fail("trz-defined", "theta-R-Z coordinates exist only where the mesh coordinates exist", case, observed=[native, xyz])
+        return
+    ok = 0.0 <= mesh[0] <= TAU
+    ctx.count("theta-R-Z coordinate requests (in range)" if ok else "theta-R-Z coordinate requests (theta outside [0, 2pi])")
+    if (native is not None) != ok or (xyz is not None) != ok:
+        ctx.fail("trz-theta-range", "coordinates are returned exactly when 0 <= theta <= 2 pi (else ValueError)", case,
+                 observed=[native, xyz], expected=mesh[0])
+    if ok and native is not None and xyz is not None:
+        if native != mesh:
+            ctx.fail("trz-native", "native coordinates are the mesh coordinates (theta, r, z)", case, observed=native, expected=mesh)
+        r = mesh[1]
+        if abs(xyz[0] ** 2 + xyz[1] ** 2 - r * r) > 1e-9 * max(1.0, r * r) or xyz[2] != mesh[2] or \
+                abs(xyz[0] * sn - xyz[1] * cs) > 1e-9 * max(1.0, abs(r)):
+            ctx.fail("trz-xyz", "Cartesian form lies at radius r on the theta ray, z kept", case, observed=xyz, expected=mesh)
+        rp = g.getRingPos(ix)
+        if tuple(rp) != (ix[1] + 1, ix[0] + 1) or tuple(g.getIndicesFromRingAndPos(*rp)) != (ix[0], ix[1]):
+            ctx.fail("trz-ringpos", "theta-R-Z ring/pos = (j+1, i+1) and inverts", case, observed=rp)
 
 
 def grid_oracle(ctx, g, kind, case0, ix, c, b, tp):
@@ -276,7 +326,7 @@ def grid_oracle(ctx, g, kind, case0, ix, c, b, tp):
             if not close_vec(d1, d0, scale=max(abs(v) for v in c)):
                 ctx.fail("grid-step-affine", "step dimension: coordinates are affine in the index", {**case, "dim": d},
                          observed=d1, expected=d0)
-    if kind == "trz" and c is not None:
+    if kind == "trz" and c is not None and 0.0 <= c[0] <= TAU:
         xyz = impl_vec(g.getCoordinates, ix)
         want = [c[1] * math.cos(c[0]), c[1] * math.sin(c[0]), c[2]]
         if xyz is None or not close_vec(xyz, want):
@@ -307,6 +357,12 @@ def reduce_oracle(ctx, g, cls, p, kind, case0, idxs):
         for f in ("getCoordinates", "getCellBase", "getCellTop"):
             kw = native if f == "getCoordinates" else {}
             a, b = impl_vec(getattr(g, f), ix, **kw), impl_vec(getattr(g2, f), ix, **kw)
+            if kind == "trz" and f == "getCoordinates":
+                from armi.reactor.grids import StructuredGrid as _SG
+                a = [a, impl_vec(_SG.getCoordinates, g, ix)]
+                b = [b, impl_vec(_SG.getCoordinates, g2, ix)]
+                a, b = (None if a == [None, None] else sum([x or [None] for x in a], [])), \
+                       (None if b == [None, None] else sum([x or [None] for x in b], []))
             if not same_vec(a, b):
                 ctx.fail(key, f"rebuilt grid gives the same {f} for every index", {**case0, "index": list(ix)}, observed=b, expected=a)
                 return
